@@ -117,6 +117,13 @@ func (t *DestinationTask) Do(ctx context.Context, batch *Batch) error {
 		}
 	}
 
+	if ackCount < len(positions) {
+		// The destination stopped acknowledging before every written record
+		// was accounted for (e.g. it kept returning empty ack responses). The
+		// remaining records are unconfirmed and must not be treated as acked.
+		return cerrors.Errorf("received acks for only %d of %d records from destination", ackCount, len(positions))
+	}
+
 	return nil
 }
 
